@@ -147,6 +147,13 @@ def calls(seed: int) -> dict[str, Callable[[], Any]]:
                    ("34 bytes", ctrl + b"\x00"), ("1 byte", ctrl[:1]), ("empty", b"")):
         c[f"taproot.check_output_pubkey|{cn}"] = lambda cb=cb: taproot.check_output_pubkey(qq, taproot.serialize(scr), cb)
     c["taproot.check_output_pubkey|q 33 bytes"] = lambda: taproot.check_output_pubkey(b"\x02" + qq, taproot.serialize(scr), ctrl)
+    # every other leaf version (the upgrade room of BIP341), honest and with the parity bit flipped, in trees of one and two leaves
+    for ver in (0xC2, 0xFA, 0xFE, 0x66, 0x7E, 0xBE):
+        for tn, tree_ in (("one leaf", [(ver, ["OP_1"])]), ("two leaves", [[(ver, ["OP_1"])], [(0xC0, ["OP_2"])]])):
+            qv, _pv = taproot.output_pubkey(sec, tree_)
+            sv, cv = taproot.input_script_sig(sec, tree_, 0)
+            c[f"taproot.check_output_pubkey|leaf version {ver:#x} {tn}"] = lambda qv=qv, sv=sv, cv=cv: taproot.check_output_pubkey(qv, taproot.serialize(sv), cv)
+            c[f"taproot.check_output_pubkey|leaf version {ver:#x} {tn} parity flipped"] = lambda qv=qv, sv=sv, cv=cv: taproot.check_output_pubkey(qv, taproot.serialize(sv), bytes([cv[0] ^ 1]) + cv[1:])
     # ---- ECDH / ElligatorSwift ----
     for bn, P in {**bad_points, "ok": Q2}.items():
         c[f"dh.diffie_hellman|{bn}"] = lambda P=P: dh.diffie_hellman(q, P, 32)
@@ -160,6 +167,9 @@ def calls(seed: int) -> dict[str, Callable[[], Any]]:
         c[f"ellswift.decode_var|{en}"] = lambda e=e: ellswift.decode_var(e)
         c[f"ellswift.xdh|{en}"] = lambda e=e: ellswift.xdh(e, ells["rnd"], q, 0)
         c[f"ellswift.xdh|{en}|party 1"] = lambda e=e: ellswift.xdh(ells["rnd"], e, q, 1)
+    for spn, sp_ in (("bytearray", bytearray), ("memoryview", memoryview), ("hex", lambda b: b.hex())):       # the other spellings of the same octets
+        c[f"ellswift.xdh|encodings as {spn}"] = lambda sp_=sp_: ellswift.xdh(sp_(ells["rnd"]), sp_(ells["ones"]), q, 0)
+        c[f"ellswift.decode_var|encoding as {spn}"] = lambda sp_=sp_: ellswift.decode_var(sp_(ells["rnd"]))
     c["ellswift.xdh|party 2"] = lambda: ellswift.xdh(ells["rnd"], ells["ones"], q, 2)
     c["ellswift.xdh|key 0"] = lambda: ellswift.xdh(ells["rnd"], ells["ones"], 0, 0)
     # ---- MuSig2 partial verification ----
